@@ -380,6 +380,7 @@ def gen_candidates(run, g, per_class):
                 x["pattern_type"], x["pattern"] = pt, pat
                 x.setdefault("valid_from", "2016-01-01T00:00:00Z")
                 x.pop("valid_until", None)
+                x["created"], x["modified"] = "2016-01-01T00:00:00.000Z", "2016-01-02T00:00:00.123Z"
                 x.pop("pattern_version", None)
                 if rng.random() < 0.4:
                     x["pattern_version"] = rng.choice(["3.0", "4.2.1", "2.0"])
